@@ -9,6 +9,21 @@ BASELINE = ("cd /repo && env -u PYCRAFT_VERIF /venv/bin/python -m pytest -ra -q 
             "--timeout=900 --continue-on-collection-errors")
 
 CHECKS = {
+    'C18': dict(
+        technique='AES-128 and CFB8 written in TLA+ (AES128.tla with FIPS-197 vectors as ASSUMEs, CFB8.tla); traces of the real '
+                  'encryption wrappers (plaintext and ciphertext of every send / read / recv), of os.urandom and of the RSA blocks the '
+                  'key holder recovers are recomputed chunk by chunk by TLC (I->S, Trace_Cipher.tla)',
+        text='Trace_Cipher.tla keeps one CFB8 shift register per direction (key = IV = secret) and requires every chunk the real '
+             'EncryptedSocketWrapper sent to be the encryption of its plaintext continuing the stream, and every chunk read through '
+             'EncryptedFileObjectWrapper / recv to decrypt likewise with an independent register, for whatever partition into calls '
+             'occurred; it requires the secret to be the single os.urandom(16) draw of that login, 16 bytes, distinct across the '
+             'logins of the run, and secret and verify token to arrive as well-formed PKCS#1 v1.5 type-2 blocks (raw c^d mod n, token '
+             'lengths 1..64, 1024- and 2048-bit keys). Traces come from whole encrypted logins against the independent peer (which '
+             'encrypts with its own CFB8 loop, so interoperation is exercised) and from the wrappers driven directly with random '
+             'partitions in both directions.',
+        note='Trusted: TLC arithmetic / Bitwise overrides, Python pow() for the private-key operation. Randomness is checked for source, '
+             'use and distinctness only. About 2.5 KB (quick) of stream are recomputed by the TLA+ AES.',
+        design='5/C18'),
     'C17': dict(
         technique='SHA-1 and Java signed-hex written in TLA+ (SHA1.tla, SignedHex.tla); TLC enumerates the formatter and its rows '
                   'are replayed into minecraft_sha1_hash_digest (S->I); recorded update() calls and results of the real '
